@@ -72,6 +72,12 @@ type Method struct {
 	method interface{}
 	// Parent module of this method
 	Module *Module
+	// Set on the object that reading a method of a type through the
+	// type itself yields (list.append): the type whose instances it
+	// accepts as its first argument, and the method in the type's
+	// dictionary it was made from (see M__get__)
+	objclass *Type
+	descr    *Method
 }
 
 // Internal method types implemented within eval.go
@@ -241,6 +247,17 @@ func newBoundMethod(name string, fn interface{}) (Object, error) {
 // Call a method
 func (m *Method) M__call__(args Tuple, kwargs StringDict) (Object, error) {
 	self := Object(m.Module)
+	if m.objclass != nil {
+		// A method of a type called through the type, list.append(l, x):
+		// the first argument is the receiver (method_descriptor in CPython)
+		if len(args) == 0 {
+			return nil, ExceptionNewf(TypeError, "descriptor '%s' of '%s' object needs an argument", m.Name, m.objclass.Name)
+		}
+		if !args[0].Type().IsSubtype(m.objclass) {
+			return nil, ExceptionNewf(TypeError, "descriptor '%s' requires a '%s' object but received a '%s'", m.Name, m.objclass.Name, args[0].Type().Name)
+		}
+		self, args = args[0], args[1:]
+	}
 	if kwargs != nil {
 		return m.CallWithKeywords(self, args, kwargs)
 	}
@@ -248,16 +265,49 @@ func (m *Method) M__call__(args Tuple, kwargs StringDict) (Object, error) {
 }
 
 // Read a method from a class which makes a bound method
+//
+// Reading a method of a type through the type itself (list.append)
+// gives an unbound method which takes the receiver as first argument
 func (m *Method) M__get__(instance, owner Object) (Object, error) {
 	if instance != None {
+		if m.objclass != nil {
+			if !instance.Type().IsSubtype(m.objclass) {
+				return nil, ExceptionNewf(TypeError, "descriptor '%s' for '%s' objects doesn't apply to '%s' object", m.Name, m.objclass.Name, instance.Type().Name)
+			}
+			return NewBoundMethod(instance, m.descr), nil
+		}
 		return NewBoundMethod(instance, m), nil
 	}
-	return m, nil
+	cls, ok := owner.(*Type)
+	if !ok || m.objclass != nil || m.Module != nil || m.Flags&METH_STATIC != 0 {
+		// already unbound, a module function or a static method
+		return m, nil
+	}
+	// find the class in the MRO which defines the method
+	objclass := cls
+	for _, baseObj := range cls.Mro {
+		if base, ok := baseObj.(*Type); ok && base.Dict[m.Name] == Object(m) {
+			objclass = base
+			break
+		}
+	}
+	unbound := *m
+	unbound.objclass = objclass
+	unbound.descr = m
+	return &unbound, nil
+}
+
+// the method in the type's dictionary for an unbound method, else m
+func (m *Method) base() *Method {
+	if m.descr != nil {
+		return m.descr
+	}
+	return m
 }
 
 // FIXME this should be the default?
 func (m *Method) M__eq__(other Object) (Object, error) {
-	if otherMethod, ok := other.(*Method); ok && m == otherMethod {
+	if otherMethod, ok := other.(*Method); ok && m.base() == otherMethod.base() {
 		return True, nil
 	}
 	return False, nil
@@ -265,7 +315,7 @@ func (m *Method) M__eq__(other Object) (Object, error) {
 
 // FIXME this should be the default?
 func (m *Method) M__ne__(other Object) (Object, error) {
-	if otherMethod, ok := other.(*Method); ok && m == otherMethod {
+	if otherMethod, ok := other.(*Method); ok && m.base() == otherMethod.base() {
 		return False, nil
 	}
 	return True, nil
